@@ -4,6 +4,7 @@ import common
 from common import show_floats, show_ints, fbits
 import tprog, gen_dag, gen_ops
 
+tprog.LAYOUTS = True      # leaves are handed over in C / Fortran / strided / negative-stride / offset / transposed layouts
 PROP = 'C05'
 LEAN_TARGETS = ['Props.C05']
 REQUIRED_THEOREMS = ['Props.C05.flatten_spec', 'Props.C05.unfold_dim_spec', 'Props.C05.sum_spec', 'Props.C05.matmul_spec',
@@ -162,6 +163,7 @@ def _numpy_ref(c):
     if op == 'squeeze':
         import torch
         ax = pa(args[0]); t = torch.tensor(a[0])
+        if a[0].ndim == 0: return a[0]       # nothing to squeeze on a 0-d tensor: the library answers it unchanged for any dim (as for every legal dim)
         return (t.squeeze() if ax is None else t.squeeze(ax)).numpy()
     if op == 'unsqueeze':
         return np.expand_dims(a[0], tuple(common.parse_ints(args[0])))
